@@ -306,7 +306,16 @@ impl<D: DataMut> ReaderFrom for ScalarZnx<D> {
         let new_cols: usize = reader.read_u64::<LittleEndian>()? as usize;
         let len: usize = reader.read_u64::<LittleEndian>()? as usize;
 
-        let expected_len: usize = new_n * new_cols * size_of::<i64>();
+        // Checked arithmetic: a header whose product overflows usize is rejected, never wrapped or panicked on.
+        let expected_len: usize = match new_n.checked_mul(new_cols).and_then(|x| x.checked_mul(size_of::<i64>())) {
+            Some(x) => x,
+            None => {
+                return Err(std::io::Error::new(
+                    std::io::ErrorKind::InvalidData,
+                    format!("ScalarZnx metadata overflows usize: n={new_n} * cols={new_cols} * 8"),
+                ));
+            }
+        };
         if expected_len != len {
             return Err(std::io::Error::new(
                 std::io::ErrorKind::InvalidData,
